@@ -48,6 +48,7 @@ type V struct {
 	inlined      map[string]bool
 	toolErr      string
 	allowed      map[string][]string
+	cutUsed      map[string]bool
 }
 
 func (v *V) note(s string)        { v.notes[s] = true }
@@ -58,7 +59,7 @@ func newV(prog *Prog, fi *FuncInfo, spec *FuncSpec, mode Mode) *V {
 	v := &V{prog: prog, pkg: fi.pkg, fi: fi, spec: spec, d: newDecls(mode), oblInst: map[string]int{}, typeTags: map[string]int{},
 		strLits: map[string]string{}, closures: map[string]*closureInfo{}, loopOrd: map[ast.Stmt]int{}, callOrd: map[*ast.CallExpr]string{},
 		siteOrd: map[ast.Node]int{}, notes: map[string]bool{}, abstractions: map[string]bool{}, trusted: map[string]bool{},
-		atUsed: map[string]bool{}, usedContracts: map[string]*FuncSpec{}, inlined: map[string]bool{}}
+		cutUsed: map[string]bool{}, atUsed: map[string]bool{}, usedContracts: map[string]*FuncSpec{}, inlined: map[string]bool{}}
 	heapSortsReset(v.d)
 	return v
 }
@@ -194,6 +195,13 @@ func (v *V) run() {
 	for _, c := range v.spec.Requires {
 		e := v.specEnv(st, nil, fr, scope, spos)
 		st.assume(v.evalClause(e, c))
+	}
+	// ghost locals with initial values
+	for _, g := range v.spec.GhostLocals {
+		gt := v.prog.resolveType(g.Type, fi.pkg.path)
+		e := v.specEnv(st, nil, fr, scope, spos)
+		iv := v.coerce(e, e.eval(g.Init.Expr), gt)
+		st.ghost[g.Name] = Val{T: gt, S: iv.S}
 	}
 	v.entry = st.clone()
 	// vacuity guard: the precondition must be satisfiable
@@ -1022,6 +1030,10 @@ func (v *V) atStmts(e *Env, call *ast.CallExpr, after bool, bind map[string]Val,
 	if !ok {
 		return
 	}
+	if after && v.top != nil && contains(v.spec.CutAfter, name) {
+		defer func() { e.st.dead = true }()
+		v.cutUsed[name] = true
+	}
 	for _, a := range v.spec.At {
 		if fmt.Sprintf("%s#%d", a.Callee, a.Ord) != name || a.After != after {
 			continue
@@ -1112,7 +1124,8 @@ func (v *V) applyContract(e *Env, fs *FuncSpec, fn *types.Func, recv *Val, args 
 		}
 		return ce
 	}
-	v.atStmts(e, call, false, bound, nil)
+	argBind := argBinding(recv, args)
+	v.atStmts(e, call, false, argBind, nil)
 	// ghost parameters of the callee: universally quantified in its ensures
 	ghostClauses := func(cs []Clause) (plain, ghosty []Clause) {
 		for _, c := range cs {
@@ -1257,7 +1270,7 @@ func (v *V) applyContract(e *Env, fs *FuncSpec, fn *types.Func, recv *Val, args 
 	}
 	v.usedContracts[fs.Kind+" "+fs.PkgPath+"."+fs.Key] = fs
 	bindAfter := map[string]Val{}
-	for k, val := range bound {
+	for k, val := range argBind {
 		bindAfter[k] = val
 	}
 	for i, r := range rets {
@@ -1336,7 +1349,7 @@ func (v *V) inlineCall(e *Env, fi *FuncInfo, recv *Val, args []Val, call *ast.Ca
 	if e.spec {
 		panic(bindErr("call to %s in a spec expression: function has no contract (declare it pure or use a spec function)", fi.name()))
 	}
-	v.atStmts(e, call, false, nil, nil)
+	v.atStmts(e, call, false, argBinding(recv, args), nil)
 	v.inlined[fi.pkg.path+"."+fi.name()] = true
 	v.inlineStack = append(v.inlineStack, fi)
 	defer func() { v.inlineStack = v.inlineStack[:len(v.inlineStack)-1] }()
@@ -1394,8 +1407,27 @@ func (v *V) inlineCall(e *Env, fi *FuncInfo, recv *Val, args []Val, call *ast.Ca
 	for _, r := range fr.results {
 		rets = append(rets, st.vars[r])
 	}
-	v.atStmts(e, call, true, nil, nil)
+	ab := argBinding(recv, args)
+	for i, r := range rets {
+		ab[fmt.Sprintf("result%d", i)] = r
+		if i == 0 {
+			ab["result"] = r
+		}
+	}
+	v.atStmts(e, call, true, ab, nil)
 	return rets
+}
+
+// argBinding: names available in at-call statements: recv, arg0, arg1, ...
+func argBinding(recv *Val, args []Val) map[string]Val {
+	m := map[string]Val{}
+	if recv != nil {
+		m["recv"] = *recv
+	}
+	for i, a := range args {
+		m[fmt.Sprintf("arg%d", i)] = a
+	}
+	return m
 }
 
 func (v *V) inlineLit(e *Env, lit *ast.FuncLit, call *ast.CallExpr) []Val {
